@@ -207,7 +207,11 @@ func Exec(c *Case) (vs []viol, calls int, shape string) {
 			}
 		}
 		for i := 0; i < len(got) && i < c.TooLargeAt; i++ {
-			if !bytes.Equal(bytes.TrimLeft(got[i], " \n"), c.Msgs[i]) {
+			g := got[i]
+			if c.Codec == "json" {
+				g = bytes.TrimLeft(g, " \n\t\r")
+			}
+			if !bytes.Equal(g, c.Msgs[i]) {
 				add("wrong-message", fmt.Sprintf("message %d differs before the oversized one", i))
 			}
 		}
